@@ -92,6 +92,7 @@ impl OwnedInvite {
 }
 /// the stored row of an own invitation has been deleted (so a restart does not bring the invitation back)
 pub uninterp spec fn invite_row_deleted(id: Uid) -> bool;
+pub uninterp spec fn accepted_invite_row_deleted(room: Seq<char>, id: Uid) -> bool;
 pub struct DefaultRoom { pub room: String, pub authorisation: String }
 impl Invite {
     #[verifier::external_body]
@@ -101,7 +102,8 @@ impl Invite {
         ensures r is Ok ==> r->Ok_0.0.invite_id == r->Ok_0.1.id && r->Ok_0.0.application@ == application@
     { unimplemented!() }
     #[verifier::external_body]
-    pub async fn delete(room_id: String, invite_id: Uid, db: &GraphDatabaseService) -> (r: std::result::Result<(), crate_error::Error>) { unimplemented!() }
+    /// deletes the sys.Invite row `invite_id` of the private room `room_id`: the fact is established by this contract only
+    pub async fn delete(room_id: String, invite_id: Uid, db: &GraphDatabaseService) -> (r: std::result::Result<(), crate_error::Error>) ensures r is Ok ==> accepted_invite_row_deleted(room_id@, invite_id) { unimplemented!() }
     #[verifier::external_body]
     pub async fn list(room_id: String, db: &GraphDatabaseService) -> (r: std::result::Result<Vec<Invite>, crate_error::Error>) { unimplemented!() }
     #[verifier::external_body]
@@ -164,7 +166,8 @@ pub assume_specification[ String::as_bytes ](s: &String) -> (r: &[u8]) ensures r
 #[verifier::external_body]
 pub fn base64_decode(data: &[u8]) -> (r: std::result::Result<Vec<u8>, SecError>) ensures r is Ok ==> r->Ok_0@ == spec_b64_decode(data@) { unimplemented!() }
 #[verifier::external_body]
-pub fn uid_encode(id: &Uid) -> (r: String) { unimplemented!() }
+pub fn uid_encode(id: &Uid) -> (r: String) ensures r@ == spec_uid_text(*id) { unimplemented!() }
+pub uninterp spec fn spec_uid_text(id: Uid) -> Seq<char>;
 pub struct MulticastInfo { x: u8 }
 pub struct Connection { x: u8 }
 pub struct SocketAddr { x: u8 }
@@ -179,6 +182,7 @@ impl PeerManager {
     pub closed spec fn table(&self) -> Map<MeetingToken, Vec<TokenType>> { self.allowed_token@ }
     pub closed spec fn app(&self) -> Seq<char> { self.app_key@ }
     pub closed spec fn peers(&self) -> Seq<AllowedPeer> { self.allowed_peers@ }
+    pub closed spec fn private_room(&self) -> Uid { self.private_room_id }
     #[verifier::external_body]
     pub async fn send_annouces(&self) -> (r: std::result::Result<(), crate_error::Error>) { unimplemented!() }
 }
@@ -368,6 +372,8 @@ pub proof fn lemma_kept_then_consumed(a: Map<MeetingToken, Vec<TokenType>>, b: M
         only_consumed_dropped(old(self).table(), final(self).table(), token_type),
         // [used_owned_invitation_row_deleted] a successful consumption has deleted the stored row of the invitation
         r is Ok && token_type is OwnedInvite ==> invite_row_deleted(token_type->OwnedInvite_0.id),
+        // [used_accepted_invitation_row_deleted] on the invited side too a successful consumption has deleted the stored row of the invitation, in the instance's private room: a restart does not make a used invitation usable again
+        r is Ok && token_type is Invite ==> accepted_invite_row_deleted(spec_uid_text(old(self).private_room()), token_type->Invite_0.invite_id),
         // [invitation_consumed_whenever_peer_admitted] also when a later step fails: a peer is never admitted through an invitation that stays valid
         token_type is OwnedInvite && owned_at_most_once(old(self).table(), token_type->OwnedInvite_0.id) && final(self).peers().len() > old(self).peers().len()
             ==> !table_has_owned(final(self).table(), token_type->OwnedInvite_0.id),
